@@ -199,9 +199,31 @@ func managerHang(c *common) error {
 				m.Providers = append(m.Providers, endpoint.StaticProvider(eps))
 			}
 			start := time.Now()
-			err := m.Test(context.Background())
-			ae, present, _ := m.VerifActive()
+			var err error
 			got := "none"
+			if i%2 == 1 {
+				// background election: the first listed endpoint is elected while healthy, then the scripted health
+				// applies and a failed query (error threshold 1) starts the recovery election in the background
+				saved := sc.health
+				sc.health = map[int]string{}
+				for id := range saved {
+					sc.health[id] = "ok"
+				}
+				m.ErrorThreshold = 1
+				err = m.Test(context.Background())
+				sc.health = saved
+				_ = m.Do(context.Background(), func(e endpoint.Endpoint) error { return errPlain })
+				nhang := 0
+				for _, h := range saved {
+					if h == "hang" {
+						nhang++
+					}
+				}
+				time.Sleep(time.Duration(nhang)*5*time.Second + 1500*time.Millisecond)
+			} else {
+				err = m.Test(context.Background())
+			}
+			ae, present, _ := m.VerifActive()
 			if present {
 				got = ae.Endpoint
 			}
